@@ -359,6 +359,11 @@ pub open spec fn bytes_ascii(b: Seq<u8>) -> bool { forall|i: int| 0 <= i < b.len
 pub struct ExFromUtf8Error(std::string::FromUtf8Error);
 
 pub uninterp spec fn valid_utf8(b: Seq<u8>) -> bool;
+#[verifier::external_body]
+pub proof fn axiom_valid_utf8_empty()
+    ensures valid_utf8(Seq::<u8>::empty()),
+{
+}
 
 #[verifier::external_body]
 pub fn rws_string_from_utf8(v: Vec<u8>) -> (r: Result<String, std::string::FromUtf8Error>)
@@ -1067,9 +1072,9 @@ impl RwsClone for String {
     #[verifier::external_body]
     fn rws_clone(&self) -> String { self.clone() }
 }
-impl RwsClone for Vec<u8> {
+impl<T: Clone> RwsClone for Vec<T> {
     #[verifier::external_body]
-    fn rws_clone(&self) -> Vec<u8> { self.clone() }
+    fn rws_clone(&self) -> Vec<T> { self.clone() }
 }
 
 // str::replace(from, to): only the instance the code uses is specified - removing every occurrence of a one-character pattern
@@ -1159,4 +1164,26 @@ impl<K, V> RwsIntoIter for HashMap<K, V> {
     type Out = Vec<(K, V)>;
     #[verifier::external_body]
     fn rws_into_iter(self) -> (r: Vec<(K, V)>) { self.into_iter().collect() }
+}
+
+// String::eq(&str)
+pub trait RwsEq {
+    spec fn sv8(&self) -> Seq<char>;
+    fn rws_eq(&self, o: &str) -> (r: bool)
+        ensures r == (self.sv8() == o@);
+}
+impl RwsEq for String {
+    open spec fn sv8(&self) -> Seq<char> { self@ }
+    #[verifier::external_body]
+    fn rws_eq(&self, o: &str) -> bool { self.eq(o) }
+}
+impl RwsEq for str {
+    open spec fn sv8(&self) -> Seq<char> { self@ }
+    #[verifier::external_body]
+    fn rws_eq(&self, o: &str) -> bool { self.eq(o) }
+}
+impl RwsDisp for std::io::Error {
+    uninterp spec fn disp(&self) -> Seq<char>;
+    #[verifier::external_body]
+    fn rws_disp(&self) -> String { self.to_string() }
 }
